@@ -157,6 +157,18 @@ func NewLinearFeeFunction(maxFeeRate chainfee.SatPerKWeight,
 	// Calculate how much fee rate should be increased per block.
 	end := l.endingFeeRate
 
+	// The caller-specified starting fee rate is not validated upstream, so
+	// it may be greater than the max fee rate allowed, which is derived
+	// from the budget and the configured max fee rate. Similar to the
+	// estimated fee rate, we cap it at the ending fee rate to make sure we
+	// never start above it, which would also give us a negative delta.
+	if start > end {
+		log.Warnf("Starting fee rate %v exceeds max allowed fee rate "+
+			"%v, using max fee rate instead", start, end)
+
+		start = end
+	}
+
 	// The starting and ending fee rates are in sat/kw, so we need to
 	// convert them to msat/kw by multiplying by 1000.
 	delta := btcutil.Amount(end - start).MulF64(1000 / float64(l.width))
